@@ -365,6 +365,16 @@ def replay(ctx, rec):
         os.makedirs(base)
         v = solitary({c["input"]: make_inputs(ctx, base)[c["input"]]}, base)[c["input"]]
         return bool(v["final"]) or v["rc"] != 0
+    if "burst" in c:            # a free-running burst: run bursts of that size again (a race: three attempts) and judge every process
+        base = ctx.path("c20b")
+        os.makedirs(base)
+        inputs = make_inputs(ctx, base)
+        solo = solitary(inputs, base)
+        for rep in range(3):
+            bt, final = burst(ctx, inputs, solo, c["burst"], os.path.join(base, "rb%d" % rep))
+            if final or judge(ctx, bt, "replay_burst%d" % rep):
+                return True
+        return False
     if "schedule" not in c:
         raise core.CannotReplay("no executable case in this replay file")
     base = ctx.path("c20r")
